@@ -83,6 +83,7 @@ func init() {
 				mainPaths = append(mainPaths, p)
 			}
 		}
+		noise := 0
 		subset := func(idxs []Sx) (string, []string) {
 			sub, err := os.MkdirTemp(os.Getenv("VERIF_SCRATCH"), "verif-c07s-")
 			if err != nil {
@@ -95,6 +96,17 @@ func init() {
 				os.MkdirAll(filepath.Dir(p), 0o755)
 				os.WriteFile(p, []byte(f.Nth(3).Str()), 0o644)
 				paths = append(paths, p)
+			}
+			// every other directory run: OTHER files are added next to the selected ones, sorting before them -- a
+			// source whose name contains "testData" (skipped by the path rule), a generated source matched by a
+			// .gitignore pattern, a text file; none of them may change the entries of the selected files
+			noise++
+			if noise%2 == 0 && len(paths) > 0 {
+				d := filepath.Dir(paths[0])
+				os.WriteFile(filepath.Join(d, "A0LatestData.java"), []byte("public class A0LatestData { void a() { } }\n"), 0o644)
+				os.WriteFile(filepath.Join(d, "A0_gen.java"), []byte("public class A0_gen { void g() { } }\n"), 0o644)
+				os.WriteFile(filepath.Join(d, "A0notes.txt"), []byte("class Fake {}\n"), 0o644)
+				os.WriteFile(filepath.Join(sub, ".gitignore"), []byte("*_gen.java\n"), 0o644)
 			}
 			return sub, paths
 		}
